@@ -588,6 +588,13 @@ func (a *apiRun) call(c *sx) (string, *lungo.Handle) {
 			return errClass(err), &h
 		}
 		return "OK", &h
+	case "dropIndexKey":
+		co, h := a.coll(c)
+		_, err := co.Indexes().DropOneWithKey(ctx, decValue(c.list[4]))
+		if err != nil {
+			return errClass(err), &h
+		}
+		return "OK", &h
 	case "dropAllIndexes":
 		co, h := a.coll(c)
 		_, err := co.Indexes().DropAll(ctx)
@@ -1219,6 +1226,23 @@ func (g *apiGen) call() string {
 		}
 		return "(dropIndex " + s + " " + t + " " + hx(pick(r, []string{"a_1", "b_1", "ix", "_id_", "a_-1", "c_1", "a_1_b_1"})) + ")"
 	case k < 91:
+		if r.chance(1, 2) {
+			// drop by key specification: the _id key, keys of indexes that may exist, BSON-equal spellings, unknown keys
+			key := pick(r, []bson.D{
+				{{Key: "_id", Value: int32(1)}},
+				{{Key: "a", Value: int32(1)}},
+				{{Key: "b", Value: int32(1)}},
+				{{Key: "a", Value: float64(1)}},
+				{{Key: "b", Value: int32(-1)}},
+				{{Key: "a", Value: int32(1)}, {Key: "b", Value: int32(1)}},
+				{{Key: "c", Value: int32(1)}},
+				{},
+			})
+			if g.uniqField != "" && r.chance(1, 3) {
+				key = bson.D{{Key: g.uniqField, Value: int32(1)}}
+			}
+			return "(dropIndexKey " + s + " " + t + " " + enc(key) + ")"
+		}
 		return "(dropAllIndexes " + s + " " + t + ")"
 	case k < 93:
 		return "(dropColl " + s + " " + t + ")"
